@@ -11,6 +11,8 @@ from fractions import Fraction
 
 import torch
 
+torch.set_num_threads(1)
+
 from vlib import cb, cl, cn, co, cp, cq, cz, coq_eval_bools, coq_eval_print, exc_kind, load_corpus, shrink
 
 IMPORTS = "From PV Require Import C15.Model C15.Spec.\nLocal Open Scope Z_scope.\n"
@@ -221,12 +223,33 @@ def c_obs(o, decl):
 
 
 def tol_of(case):
-    # a rate re-read from the csv is the double nearest to a 5-digit decimal, the model has the decimal itself
-    exact = case["regime"] == "E" and not any(s["restart"] for s in case["steps"])
-    return "0%Q" if exact else "(1 # 1000000000000)%Q"
+    # multiplying by a power of two is exact in binary64, so every rate (also one re-read from the csv: the model rounds
+    # the printed decimal to the nearest double, Model.b64) can be compared exactly; other factors to 1e-12
+    return "0%Q" if exact_case(case) else "(1 # 1000000000000)%Q"
 
 
-def model_term(case, out, rnd="fmt5", restarts=True):
+def exact_case(case):
+    return case["regime"] == "E" and case["P"]["fac"] in (0.5, 0.25, 0.125)
+
+
+def near_tie(out):
+    """some rate is within 1e-9 (relative to the last printed digit) of a '{:.4e}' rounding tie: with an inexact float
+    product the printed digit may then differ from the model's exact product for reasons the model does not cover"""
+    rates = [o[4]["lr"] for o in out["obs"] if o[0] == "ok" and o[4]] + [i["lr"] for i in out["cache"] if i]
+    for r in rates:
+        if not isinstance(r, (int, float)) or isinstance(r, bool) or not r or not math.isfinite(r):
+            continue
+        m = abs(Fraction(r))
+        while m < 10000:
+            m *= 10
+        while m >= 100000:
+            m /= 10
+        if abs((m - math.floor(m)) - Fraction(1, 2)) < Fraction(1, 10 ** 9):
+            return True
+    return False
+
+
+def model_term(case, out, rnd="fmt5 b64", restarts=True):
     decl = case["decl"]
     try:
         if out["keys"] != list(range(len(out["cache"]))):
@@ -513,10 +536,14 @@ def run(chk, cases=None):
                         "history keys are 0..n (update_for_epoch is always called with epoch=None)"]
     replaying = cases is not None
     cases = cases if cases is not None else gen_cases(chk)
-    outs, terms, plain_cache = [], [], {}
+    outs, terms, plain_cache, kept = [], [], {}, []
     for c in cases:
         stream = c.pop("stream", "random")
         out = run_impl(chk, c)
+        if not exact_case(c) and near_tie(out):
+            chk.count("dropped: inexact factor and a rate at a print-rounding tie")
+            continue
+        kept.append(c)
         outs.append(out)
         terms.append(model_term(c, out))
         chk.note_case(c, nontrivial(c, out), stream)
@@ -532,6 +559,7 @@ def run(chk, cases=None):
         chk.count("outcome=" + ("error" if _has_errors(out) else "stopped" if any(not o[1] for o in oks) else "running"))
         rates = {o[3][0] for o in oks}
         chk.count("rate_changes=%d" % min(3, max(0, len(rates) - 1)))
+    cases = kept
     res = coq_eval_bools(chk.workdir, IMPORTS, terms)
     bad = [i for i, ok in enumerate(res) if not ok]
     chk.extra["model_disagreements"] = len(bad)
@@ -588,9 +616,9 @@ def run(chk, cases=None):
 
     # --- model disagreements ------------------------------------------------------------------
     if bad:
-        rep = coq_eval_bools(chk.workdir, IMPORTS, [model_term(cases[i], outs[i], rnd="Qred") for i in bad], tag="rep")
+        rep = coq_eval_bools(chk.workdir, IMPORTS, [model_term(cases[i], outs[i], rnd="Qred b64") for i in bad], tag="rep")
         differs = coq_eval_bools(chk.workdir, IMPORTS,
-                                 [model_term(cases[i], outs[i], rnd="Qred") for i in range(len(cases)) if res[i]][:400], tag="rep2")
+                                 [model_term(cases[i], outs[i], rnd="Qred b64") for i in range(len(cases)) if res[i]][:400], tag="rep2")
         chk.extra["agree_with_repaired_model"] = sum(rep)
         if all(rep) and not diffs and not concrete and not all(differs):
             # the implementation now behaves like the model without print rounding on every case
@@ -602,7 +630,7 @@ def run(chk, cases=None):
         case = cases[i] if replaying else shrink(cases[i], lambda c: _fails(chk, c), _cands, budget=30)
         out = run_impl(chk, case)
         rec = {"kind": "model", "case": case, "impl": out,
-               "model": coq_eval_print(chk.workdir, IMPORTS, "run fmt5 %s %s %s (init_state %s %s) %s" % (
+               "model": coq_eval_print(chk.workdir, IMPORTS, "run fmt5 b64 %s %s %s (init_state %s %s) %s" % (
                    c_params(case["P"]), c_decl(case["decl"]), cq(Fraction(case["dflt"])), c_params(case["P"]),
                    cq(Fraction(case["dflt"])), c_steps(case["steps"]))),
                "correspondence": "corr:C15:TrainingStateController.update_for_epoch/update_cache/save_info_to_hist",
